@@ -122,9 +122,10 @@ def field_names(facts, ty, path):
 
 def walk(v, fn, depth=0):
     """pre-order visit of all sub-terms"""
-    if not isinstance(v, tuple) or depth > 60:
+    if not isinstance(v, tuple) or depth > 60 or not v:
         return
-    fn(v)
+    if isinstance(v[0], str):
+        fn(v)
     for x in v:
         if isinstance(x, tuple):
             walk(x, fn, depth + 1)
